@@ -1,5 +1,5 @@
 """Custom runners of bin/check for families that do not use the generic schedule pipeline."""
-import json, os, re, hashlib, time
+import json, os, re, hashlib, time, random
 
 V = os.path.dirname(os.path.dirname(os.path.abspath(__file__)))
 
@@ -156,11 +156,34 @@ def run_replicas(pid, tier, seed, work, t0, M):
         rc, out2, dt = M.tlc(work, "mc", "MC_replicas", cfg.replace(*sub), "int", 4, 300)
         if "Invariant Agreement is violated" not in out2:
             raise M.Infra("MC_replicas sanity: variant %s should violate Agreement" % sub[1])
+    # the branch discipline (MC_branches): agreement holds when process memory is filled from committed reads only; the variant in
+    # which a read on a transaction's branch fills a cache is rejected; the model's chains become schedules
+    bcfg = open(os.path.join(V, "spec/mc/MC_branches.cfg")).read()
+    rc, outb, dt = M.tlc(work, "mc", "MC_branches", bcfg, "int", 4, 300)
+    if "No error has been found" not in outb:
+        raise M.Infra("MC_branches failed:\n" + outb[-2000:])
+    bstates, btrans = M.tlc_counts(outb)
+    rc, outb2, dt = M.tlc(work, "mc", "MC_branches", bcfg.replace("CacheOnBranch = FALSE", "CacheOnBranch = TRUE").replace("INVARIANT CacheCoherent\n", ""), "int", 4, 300)
+    if "Invariant Agreement is violated" not in outb2:
+        raise M.Infra("MC_branches sanity: the variant caching reads made on a branch should violate Agreement")
+    chains = sorted(set(json.loads(l[len('<<"CHAIN", '):-2]) for l in outb.splitlines() if l.startswith('<<"CHAIN", ')))
+    rnd = random.Random(seed * 131 + 7)
+    if tier == "quick":
+        chains = rnd.sample(chains, min(40, len(chains)))
     scheds = []
+    for ci, cj in enumerate(chains):
+        steps = []
+        for b in json.loads(cj):
+            st = {"a": "createAssetInfo", "u": "u2", "d": b["k"], "display": "NEWA"}
+            if b["shape"] != "single":
+                st = {"a": b["shape"], "inner": st}
+            steps += [st, {"a": "block", "dt": 5}]
+        scheds.append({"id": "branches-%s" % hashlib.sha1(cj.encode()).hexdigest()[:10], "scene": "chain", "steps": steps})
     for src in P["sources"]:
         n, depth = src[tier]
         scheds += M.gen_walks(exe, work, src["family"], n, depth, seed)
     ids = {s["id"]: s for s in scheds}
+    mstates, mtrans = mstates + bstates, mtrans + btrans
     merged, stats = _replica_traces(M, exe, work, scheds, seed)
     results = M.validate_all(work, [merged], "TraceRep")
     M.log("replicas: %s" % stats)
